@@ -45,3 +45,16 @@ Proof.
   - destruct v; cbn; try discriminate. intros _. eexists. reflexivity.
   - intros [s ->]. reflexivity.
 Qed.
+
+(* ---- kinds of the collection results (Model/StringKinds.v) ---------------------------------- *)
+From YV Require Import Model.StringKinds.
+
+Lemma collection_kinds_spec f :
+  result_kind f <> RKList /\ result_kind f <> RKOther /\
+  finalised true (result_kind f) = FKList /\
+  (finalised false (result_kind f) = FKTuple <-> result_kind f = RKTuple) /\
+  (result_kind f = RKIter <-> f = FSearchAll \/ f = FSearchAllSel).
+Proof.
+  destruct f; cbn; repeat split; try discriminate; try reflexivity; try tauto;
+    try (intros [H|H]; discriminate).
+Qed.
